@@ -301,7 +301,32 @@ def _run_path(fn, cx, eng):
     except RecursionError:
         return PathResult("inconclusive", eng, "recursion limit", traceback.format_exc())
     except Exception as e:   # unexpected exception escaping the harness: candidate violation
+        gap = _stub_gap(e)
+        if gap:
+            return PathResult("inconclusive", eng, gap, traceback.format_exc())
         return PathResult("exception", eng, "%s: %s" % (type(e).__name__, e), traceback.format_exc())
+
+
+def _stub_gap(e):
+    """The code under test asked a harness stub for something the stub does not provide (an attribute it lacks, a call
+    signature it does not accept).  That is an incomplete harness, not a property violation: report it as inconclusive."""
+    if isinstance(e, AttributeError):
+        obj = getattr(e, "obj", None)
+        if obj is not None:
+            t = obj if isinstance(obj, type) else type(obj)
+            if (getattr(t, "__module__", "") or "").startswith("harness."):
+                return "harness stub %s does not provide attribute %r (incomplete harness, not a finding)" % (
+                    t.__qualname__, getattr(e, "name", "?"))
+    if isinstance(e, TypeError) and e.args and isinstance(e.args[0], str):
+        msg = e.args[0]
+        head = msg.split("(", 1)[0]
+        if "got an unexpected keyword" in msg or "positional argument" in msg or "required" in msg:
+            import sys
+            first = head.strip().split(".")[0]
+            for name, mod in list(sys.modules.items()):
+                if name.startswith("harness.") and mod is not None and first and hasattr(mod, first):
+                    return "harness stub %s was called with a signature it does not accept: %s" % (head, msg)
+    return None
 
 
 def run_concrete(fn, inputs, params, mode=("main", frozenset())):
